@@ -32,8 +32,10 @@ def gen(rng, tier):
                 cuts = sorted(set(rng.randrange(1, len(s)) for _ in range(rng.randrange(0, 4)))) if len(s) > 1 else []
                 sizes = [y - x for x, y in zip([0] + cuts, cuts + [len(s)])]
             cases.append({"kind": 2, "k": k, "stream": s.hex(), "sizes": sizes, "r": None})
-            if s and rng.random() < 0.5:      # the same cuts as short reads of a file object
-                cases.append({"kind": 1, "k": k, "stream": s.hex(), "sizes": [len(c) for c in framing.cut(s, sizes)], "r": "script"})
+            if len(s) > 1:      # a file object whose reads come back short, at cuts of their own (inside headers, inside bodies)
+                cuts = sorted(set(rng.randrange(1, len(s)) for _ in range(rng.randrange(1, 5))))
+                fsizes = [y - x for x, y in zip([0] + cuts, cuts + [len(s)])]
+                cases.append({"kind": 1, "k": k, "stream": s.hex(), "sizes": fsizes, "r": "script"})
     # arbitrary byte strings (length fields are arbitrary, so keep them short enough to matter)
     nrand = 150 if tier == "quick" else 6000
     for _ in range(nrand):
